@@ -6,9 +6,11 @@ CONSTANT MetricVals <- ValsQuick
 CONSTANT Deltas <- DeltasAll
 CONSTANT FullOrders <- NoOrders
 CONSTANT Rotations <- RotAll
+CONSTANT ScaledOrders <- NoOrders
 CONSTANT Deviation = "none"
 INVARIANT RewardIsDocumentedCombination
 INVARIANT NormalisedByKind
+INVARIANT PositiveMaxBecomesOne
 INVARIANT DistinctColumns
 INVARIANT NormalisedAtMostOne
 INVARIANT NormalisedAttainsOne
